@@ -910,6 +910,14 @@ func (w *worldExec) ship(s *ShipSpec) {
 			b.CID = harnessCID(d) // a consistent mislabel-free corruption: only the signature can catch it
 			o.Fault("ship_bitflip")
 		}
+		if s.Fault == "relabel" && nEntries >= 2 {
+			// two blocks under each other's labels (an inconsistent Writer.AddSealed, a hostile
+			// sender): every token is genuine, none sits under its own name
+			i := s.Entry % nEntries
+			j := (i + 1 + s.Bit%(nEntries-1)) % nEntries
+			f.Blocks[i].CID, f.Blocks[j].CID = f.Blocks[j].CID, f.Blocks[i].CID
+			o.Fault("ship_relabelled")
+		}
 		raw = f.Bytes()
 	} else {
 		es, perr := parseCborContainer(raw)
